@@ -1,0 +1,90 @@
+// Verification hooks (cargo feature `verif-hooks`, off by default).
+//
+// Everything in this module is inert unless an external harness installs a
+// callback or an override. Nothing here changes behaviour when the feature is
+// disabled: the module is not even compiled.
+
+use std::future::Future;
+use std::pin::Pin;
+use std::sync::atomic::{AtomicU32, Ordering};
+use std::sync::{Arc, Mutex, RwLock, TryLockError};
+use std::task::{Context, Poll};
+
+/// Callback invoked at every hook point with the point's name.
+/// For `yield_point` the return value is the number of cooperative yields to perform;
+/// for `sync_point` / `lock_probe` the callback may block and its return value is ignored
+/// (`lock_probe` passes `"<name>:blocked"` while the lock is held by someone else).
+pub type HookFn = dyn Fn(&'static str) -> u32 + Send + Sync;
+
+static CALLBACK: RwLock<Option<Arc<HookFn>>> = RwLock::new(None);
+static EPMD_PORT: AtomicU32 = AtomicU32::new(0);
+
+pub fn set_callback(cb: Option<Arc<HookFn>>) {
+    *CALLBACK.write().unwrap_or_else(|e| e.into_inner()) = cb;
+}
+
+fn callback() -> Option<Arc<HookFn>> {
+    CALLBACK.read().unwrap_or_else(|e| e.into_inner()).clone()
+}
+
+/// Overrides the TCP port `EpmdClient::new` uses (0 = no override).
+pub fn set_epmd_port(port: u16) {
+    EPMD_PORT.store(port as u32, Ordering::SeqCst);
+}
+
+pub fn epmd_port_override() -> Option<u16> {
+    match EPMD_PORT.load(Ordering::SeqCst) {
+        0 => None,
+        p => Some(p as u16),
+    }
+}
+
+struct YieldOnce(bool);
+
+impl Future for YieldOnce {
+    type Output = ();
+
+    fn poll(mut self: Pin<&mut Self>, cx: &mut Context<'_>) -> Poll<()> {
+        if self.0 {
+            Poll::Ready(())
+        } else {
+            self.0 = true;
+            cx.waker().wake_by_ref();
+            Poll::Pending
+        }
+    }
+}
+
+/// Cooperative yield point: yields to the executor as many times as the installed
+/// callback asks for (never, when no callback is installed).
+pub async fn yield_point(name: &'static str) {
+    if let Some(cb) = callback() {
+        let n = cb(name);
+        for _ in 0..n {
+            YieldOnce(false).await;
+        }
+    }
+}
+
+/// Synchronous hook point for non-async code; the callback may block the calling thread.
+pub fn sync_point(name: &'static str) {
+    if let Some(cb) = callback() {
+        cb(name);
+    }
+}
+
+/// Non-blocking probe placed in front of a blocking `Mutex::lock()`: while the mutex is held
+/// by another thread the callback is told `blocked` (so a turn-based scheduler can run the
+/// holder); returns as soon as the mutex was observed free. Does nothing without a callback.
+pub fn lock_probe<T>(mutex: &Mutex<T>, blocked: &'static str) {
+    if let Some(cb) = callback() {
+        loop {
+            match mutex.try_lock() {
+                Ok(_) | Err(TryLockError::Poisoned(_)) => return,
+                Err(TryLockError::WouldBlock) => {
+                    cb(blocked);
+                }
+            }
+        }
+    }
+}
